@@ -16,9 +16,24 @@ HALT = {"TERMINAL", "CANCELED", "STOPPED"}
 
 # --------------------------------------------------------------------------- spec classification
 
+def jump_halts(spec: dict[str, Any], t: dict[str, Any]) -> bool:
+    """A jump request ends the source stage TERMINAL when the target does not exist or the budget is exceeded."""
+    if t.get("b") != "jump":
+        return False
+    budget = spec.get("max_jumps")
+    budget = 10 if budget is None else budget
+    refs = {s["ref"] for s in spec["stages"]}
+    return t["to"] not in refs or t.get("j", 1) < 0 or t.get("j", 1) > budget
+
+
 def halting_stages(spec: dict[str, Any]) -> list[str]:
-    return [s["ref"] for s in spec["stages"] if not s.get("cof") and any(t.get("b") == "fail" for t in s["tasks"])
-            and s.get("enabled") is not False]
+    out = []
+    for s in spec["stages"]:
+        if s.get("enabled") is False:
+            continue
+        if any(jump_halts(spec, t) for t in s["tasks"]) or (not s.get("cof") and any(t.get("b") == "fail" for t in s["tasks"])):
+            out.append(s["ref"])
+    return out
 
 
 def has_jump(spec: dict[str, Any]) -> bool:
@@ -39,9 +54,11 @@ def classify(spec: dict[str, Any]) -> str:
     return "confluent"
 
 
-def natural_status(s: dict[str, Any]) -> str:
+def natural_status(s: dict[str, Any], spec: dict[str, Any] | None = None) -> str:
     if s.get("enabled") is False:
         return "SKIPPED"
+    if spec is not None and any(jump_halts(spec, t) for t in s["tasks"]):
+        return "TERMINAL"
     if any(t.get("b") == "fail" for t in s["tasks"]):
         return "FAILED_CONTINUE" if s.get("cof") else "TERMINAL"
     return "SUCCEEDED"
@@ -119,7 +136,7 @@ def compare_racy_fail(spec: dict[str, Any], ref: dict[str, Any], got: dict[str, 
             if st_ != ref["stages"].get(ref_id):
                 out.append(("stage-status", f"{ref_id}: {st_} != reference {ref['stages'].get(ref_id)} (ancestor of / the failing stage)"))
             continue
-        allowed = {natural_status(s), "CANCELED", "NOT_STARTED"}
+        allowed = {natural_status(s, spec), "CANCELED", "NOT_STARTED"}
         if st_ not in allowed:
             out.append(("stage-status", f"{ref_id}: {st_} not in {sorted(allowed)}"))
     # nothing downstream of a halted stage (through AND joins) ever executes
@@ -128,7 +145,7 @@ def compare_racy_fail(spec: dict[str, Any], ref: dict[str, Any], got: dict[str, 
         if s.get("join", "AND") == "AND" and any(got["stages"].get(u) in HALT for u in s["req"]):
             if any(k.startswith(ref_id + ".t") for k in got["counts"]):
                 out.append(("downstream-of-halt-ran", f"{ref_id} executed although a required upstream halted"))
-    for ref_id, s in m.items():
+    for ref_id, s in ({} if has_jump(spec) else m).items():  # loop iterations are judged by the loop model (C15)
         for i, t in enumerate(s["tasks"]):
             mx = max_exec(t)
             n = got["counts"].get(f"{ref_id}.t{i}", 0)
